@@ -488,7 +488,11 @@ def _inline_nested(modules: dict, max_sites: int, max_body: int, known) -> list:
                         continue
                     if any(isinstance(x, (ast.Yield, ast.YieldFrom, ast.Await, ast.Global, ast.Nonlocal)) for x in ast.walk(h)):
                         continue
-                    if len(h.body) > max_body:
+                    # only one-expression helpers (`def triplet(p, u, s): return (...)`): a multi-statement nested function
+                    # is a unit of the algorithm that rules may look for by role (the look-ahead / consumer helpers of the
+                    # tokenizer, wrappers, key functions), whatever it is called
+                    hb = [st for st in h.body if not (isinstance(st, ast.Expr) and isinstance(st.value, ast.Constant) and isinstance(st.value.value, str))]
+                    if not (len(hb) == 1 and isinstance(hb[0], ast.Return) and hb[0].value is not None):
                         continue
                     refs = [x for x in ast.walk(F) if isinstance(x, ast.Name) and x.id == name]
                     inside_h = {id(x) for x in ast.walk(h)}
